@@ -167,7 +167,7 @@ func (p *Program) FullSource() string {
 func (p *Program) calls() []Call {
 	out := append([]Call{}, prelude...)
 	if p.Ctx != "" {
-		sc, ok := scaffolds[p.Ctx]
+		sc, ok := scaffoldFor(p.Ctx)
 		if !ok {
 			panic("c12 worker: unknown context " + p.Ctx)
 		}
